@@ -1,4 +1,7 @@
 """C06 - any sequence of tree edits behaves like the obvious list/map model."""
+import array
+import ctypes
+
 from hypothesis import strategies as st
 
 from .. import gens, model
@@ -54,19 +57,170 @@ class C06(Prop):
             "Replace by pointer/index/key, SetNumberValue/SetValuestring/SetBoolValue, GetArraySize/GetArrayItem/GetObjectItem[CaseSensitive]/"
             "HasObjectItem/cJSON_ArrayForEach, Duplicate, Delete; NULL arguments, out-of-range indices, missing keys, case-variant keys, "
             "aliasing keys and self-insertion included. After EVERY step every live tree's canonical dump (order, keys, values, flags, "
-            "sibling links) must equal the model's and every return value must match. non-trivial = program with an edit on a container "
+            "sibling links) must equal the model's and every return value must match. Plus histories of 4-14 edits/queries on arrays and objects of "
+            "1000..100000 items (sizes and indices around 2^15 and 2^16) with the whole value sequence compared to a list model after every step. non-trivial = program with an edit on a container "
             "that had been modified before, followed by an append; distinct by program hash")
     ASSUMPTIONS = ["not generated (unspecified by the property): InsertItemInArray beyond the end, key-less items inside objects, "
                    "editing through reference nodes, moves that would make reference views cyclic"]
-    REQUIRED_CLASSES = ["nontrivial_program", "self_insert", "reference", "const_key", "case_variant_lookup", "bulk"]
+    REQUIRED_CLASSES = ["nontrivial_program", "self_insert", "reference", "const_key", "case_variant_lookup", "bulk", "big_container"]
 
     def budget(self, tier):
         return {"workers": 14, "examples": 1200 if tier == "quick" else 12000}
 
     def strategy(self, tier):
-        return st.fixed_dictionaries({"seeds": seed_trees(), "ops": op_records(OPS_WEIGHTED, 60)})
+        main = st.fixed_dictionaries({"seeds": seed_trees(), "ops": op_records(OPS_WEIGHTED, 60)})
+        # edit histories on very long containers (index and size arithmetic beyond 2^15 / 2^16, no recursion over siblings)
+        big = st.fixed_dictionaries({"kind": st.just("big"), "object": st.booleans(),
+                                     "n": st.sampled_from([1000, 32767, 32768, 32769, 65535, 65536, 65537, 70000, 100000]),
+                                     "ops": st.lists(st.tuples(st.integers(0, 11), st.integers(0, 4095), st.integers(0, 4095)).map(list), min_size=4, max_size=14)})
+        return gens.weighted((199, main), (1, big))
+
+    def run_big(self, lib, case, stats):
+        n, is_obj = case["n"], case["object"]
+        stats.cls("big_container")
+        stats.nontriv(case, {"big_container": "object" if is_obj else "array", "n": n, "ops": case["ops"][:8]})
+        if is_obj:
+            cont = lib.cJSON_CreateObject()
+            for i in range(n):
+                lib.cJSON_AddNumberToObject(cont, b"k%d" % i, float(i))
+        else:
+            arr = (ctypes.c_int * n)(*range(n))
+            cont = lib.cJSON_CreateIntArray(arr, n)
+        mdl = list(range(n))
+        nextv = [10 ** 6]
+
+        def fresh():
+            nextv[0] += 1
+            return nextv[0]
+
+        def index(sel, allow_end):
+            size = len(mdl)
+            pool = [0, 1, 2, size - 1, size - 2, size // 2, 255, 256, 32767, 32768, 65535, 65536, size if allow_end else size - 1, sel * 31 % max(size, 1)]
+            i = pool[sel % len(pool)]
+            return max(0, min(i, size if allow_end else size - 1))
+
+        def name(v):
+            return b"k%d" % v
+        try:
+            for opc, a, b in case["ops"]:
+                size = len(mdl)
+                if size == 0:
+                    break
+                stats.inner += 1
+                if opc == 0:       # insert / add
+                    i = index(a, True)
+                    v = fresh()
+                    item = lib.cJSON_CreateNumber(float(v))
+                    if is_obj:
+                        ok = lib.cJSON_AddItemToObject(cont, name(v), item)
+                        i = size
+                    else:
+                        ok = lib.cJSON_InsertItemInArray(cont, i, item)
+                    if not ok:
+                        lib.cJSON_Delete(item)
+                        raise Violation("insert at %d of %d refused" % (i, size), key="big-insert")
+                    mdl.insert(i, v)
+                elif opc == 1:     # refused insert / out-of-range accesses
+                    item = lib.cJSON_CreateNumber(1.0)
+                    bad = lib.cJSON_InsertItemInArray(cont, -1, item)
+                    lib.cJSON_Delete(item) if not bad else None
+                    if bad:
+                        raise Violation("insert at index -1 accepted", key="big-insert")
+                    for j in (size, size + 1, -1, -2 ** 31, 2 ** 31 - 1):
+                        if lib.cJSON_GetArrayItem(cont, j):
+                            raise Violation("GetArrayItem(%d) of %d items returned an item" % (j, size), key="big-get")
+                        if lib.cJSON_DetachItemFromArray(cont, j):
+                            raise Violation("DetachItemFromArray(%d) of %d items returned an item" % (j, size), key="big-detach")
+                elif opc in (2, 3):  # detach by index / by pointer
+                    i = index(a, False)
+                    if opc == 2:
+                        got = lib.cJSON_DetachItemFromArray(cont, i)
+                    else:
+                        got = lib.cJSON_DetachItemViaPointer(cont, lib.cJSON_GetArrayItem(cont, i))
+                    if not got or lib.shim_valueint(got) != mdl[i] or lib.shim_next(got) or lib.shim_prev(got):
+                        raise Violation("detach at %d of %d returned %s" % (i, size, "nothing" if not got else "the wrong item or an item with sibling links"), key="big-detach")
+                    lib.cJSON_Delete(got)
+                    del mdl[i]
+                elif opc == 4:     # delete by index
+                    i = index(a, False)
+                    lib.cJSON_DeleteItemFromArray(cont, i)
+                    del mdl[i]
+                elif opc in (5, 6):  # replace by index / pointer
+                    i = index(a, False)
+                    v = fresh()
+                    item = lib.cJSON_CreateNumber(float(v))
+                    if is_obj:
+                        ok = lib.cJSON_ReplaceItemInObjectCaseSensitive(cont, name(mdl[i]), item)
+                        if ok:
+                            # the new member is named by the key that was passed: rename it in the model's terms
+                            lib.cJSON_Delete(lib.cJSON_DetachItemFromArray(cont, i))
+                            item = lib.cJSON_CreateNumber(float(v))
+                            lib.cJSON_AddItemToObject(cont, name(v), item)
+                            del mdl[i]
+                            mdl.append(v)
+                            continue
+                    elif opc == 5:
+                        ok = lib.cJSON_ReplaceItemInArray(cont, i, item)
+                    else:
+                        ok = lib.cJSON_ReplaceItemViaPointer(cont, lib.cJSON_GetArrayItem(cont, i), item)
+                    if not ok:
+                        raise Violation("replace at %d of %d refused" % (i, size), key="big-replace")
+                    mdl[i] = v
+                elif opc == 7:     # queries
+                    if lib.cJSON_GetArraySize(cont) != size:
+                        raise Violation("GetArraySize %d, model %d" % (lib.cJSON_GetArraySize(cont), size), key="big-size")
+                    for sel in (a, b, a + b, 3, 7, 8, 9, 10, 11):
+                        i = index(sel, False)
+                        it = lib.cJSON_GetArrayItem(cont, i)
+                        if not it or lib.shim_valueint(it) != mdl[i]:
+                            raise Violation("GetArrayItem(%d) of %d gives %s, model %d" % (i, size, lib.shim_valueint(it) if it else None, mdl[i]), key="big-get")
+                    if lib.shim_array_foreach_count(cont, None, 0) != size:
+                        raise Violation("cJSON_ArrayForEach visits a different number of items than the model holds", key="big-foreach")
+                elif opc in (8, 9) and is_obj:   # key lookups
+                    i = index(a, False)
+                    k = name(mdl[i])
+                    it = lib.cJSON_GetObjectItemCaseSensitive(cont, k) if opc == 8 else lib.cJSON_GetObjectItem(cont, k.upper())
+                    if not it or lib.shim_valueint(it) != mdl[i]:
+                        raise Violation("key lookup %r in an object of %d members fails" % (k, size), key="big-key")
+                    if lib.cJSON_GetObjectItemCaseSensitive(cont, k.upper()) or lib.cJSON_HasObjectItem(cont, b"k-1"):
+                        raise Violation("lookup of a missing key finds a member", key="big-key")
+                elif opc == 10 and is_obj:       # detach / delete by key
+                    i = index(a, False)
+                    k = name(mdl[i])
+                    got = lib.cJSON_DetachItemFromObjectCaseSensitive(cont, k) if b & 1 else lib.cJSON_DetachItemFromObject(cont, k.upper())
+                    if not got or lib.shim_valueint(got) != mdl[i]:
+                        raise Violation("detach by key %r in an object of %d members fails" % (k, size), key="big-key")
+                    lib.cJSON_Delete(got)
+                    del mdl[i]
+                else:              # append
+                    v = fresh()
+                    if is_obj:
+                        ok = lib.cJSON_AddNumberToObject(cont, name(v), float(v))
+                    else:
+                        ok = lib.cJSON_AddItemToArray(cont, lib.cJSON_CreateNumber(float(v)))
+                    if not ok:
+                        raise Violation("append to %d items refused" % size, key="big-append")
+                    mdl.append(v)
+                # after every step: the whole sequence, in one native read
+                buf = (ctypes.c_int * (len(mdl) + 16))()
+                got_n = lib.shim_array_ints(cont, buf, len(mdl) + 16)
+                if got_n != len(mdl) or ctypes.string_at(buf, 4 * got_n) != array.array("i", mdl).tobytes():
+                    where = next((j for j in range(min(got_n, len(mdl))) if buf[j] != mdl[j]), min(got_n, len(mdl)))
+                    raise Violation("after op %d on a container of %d items: holds %d items, model %d; first difference at position %d" % (
+                        opc, size, got_n, len(mdl), where), key="big-sequence")
+            fl, _, _ = lib.walk(cont, 1, 1)
+            if fl:
+                raise Violation("long container has structural defects %d after the history" % fl, key="big-structure")
+            if is_obj and lib.shim_members_named_by_value(cont) != -1:
+                raise Violation("a member of the long object lost or changed its key (position %d)" % lib.shim_members_named_by_value(cont), key="big-key")
+        finally:
+            lib.cJSON_Delete(cont)
+        if lib.ledger_live() != 0:
+            raise Violation("blocks still allocated after deleting a long container", key="leak")
 
     def run_case(self, lib, case, stats):
+        if case.get("kind") == "big":
+            return self.run_big(lib, case, stats)
         w, it = run_program(lib, case, stats)
         stats.inner += w.steps
         for f in it.feat:
@@ -82,6 +236,8 @@ class C06(Prop):
 
     def shrink_candidates(self, case):
         ops = case["ops"]
+        if case.get("kind") == "big":
+            return [dict(case, ops=ops[:i] + ops[i + 1:]) for i in range(len(ops))] + [dict(case, n=1000)]
         out = []
         for i in range(len(ops)):
             out.append(dict(case, ops=ops[:i] + ops[i + 1:]))
